@@ -127,4 +127,187 @@ class C18(Oracle):
         return out
 
 
-ORACLES = {'C18': C18}
+
+# ---------------------------------------------------------------------------------------------
+# shared "step" cases: (atoms, state, action, answers) — replayable on the implementation with a
+# scripted generator, and constructible from a `trans` protocol line
+# ---------------------------------------------------------------------------------------------
+TRANS_NAMES = ['move_agent', 'turn_agent', 'pickndrop', 'move_obstacles', 'actuate_door', 'actuate_box', 'teleport']
+_SMALL = None
+
+
+def _small_steps():
+    global _SMALL
+    if _SMALL is None:
+        _SMALL = [(enc_state(s), a.value) for s, a in gen.smallscope_steps(alphabet=gen.ALPHABET_CORE, helds=['N', 'K1', 'K4', 'W'])]
+    return _SMALL
+
+
+def step_case_from_line(line):
+    t = line.split()
+    if not t or t[0] != 'trans':
+        return None
+    n = int(t[1])
+    atoms = [int(x) for x in t[2 : 2 + n]]
+    i = 2 + n
+    st, j = dec_state(t, i)
+    action = int(t[j])
+    k = int(t[j + 1])
+    answers = [int(x) for x in t[j + 2 : j + 2 + k]]
+    return {'kind': 'step', 'atoms': atoms, 'state': ' '.join(t[i:j]), 'action': action, 'answers': answers}
+
+
+def gen_step_cases(rng, atoms_choices=None, valid=False, obstacles=False, telepods=False):
+    small = _small_steps()
+    while True:
+        r = rng.random()
+        if r < 0.35:
+            st, a = rng.choice(small)
+        else:
+            s = (gen.valid_random_state if valid or rng.random() < 0.7 else gen.random_state)(rng, max_h=6, max_w=6, p_floor=0.6)
+            h, w = s.grid.shape.height, s.grid.shape.width
+            from harness.codec import dec_obj
+
+            if obstacles or rng.random() < 0.3:
+                for _ in range(rng.randint(1, 4)):
+                    p = (rng.randrange(h), rng.randrange(w))
+                    if valid and p == s.agent.position.yx and False:
+                        continue
+                    s.grid[p] = dec_obj('O')
+            if telepods or rng.random() < 0.3:
+                c = rng.randint(0, 4)
+                for _ in range(rng.randint(1, 3)):
+                    s.grid[rng.randrange(h), rng.randrange(w)] = dec_obj(f'T{c}')
+                if rng.random() < 0.6:
+                    s.grid[s.agent.position] = dec_obj(f'T{c}')
+            st, a = enc_state(s), rng.randrange(8)
+        if atoms_choices is None:
+            atoms = [rng.randrange(7) for _ in range(rng.choice([1, 1, 2, 4, 7]))]
+        else:
+            atoms = list(rng.choice(atoms_choices))
+        yield {'kind': 'step', 'atoms': atoms, 'state': st, 'action': a, 'answers': [rng.randrange(64) for _ in range(12)]}
+
+
+def run_step(case):
+    """runs the real transition functions (in place on a copy) with the scripted answers"""
+    from harness.recrng import ScriptRng
+    from gym_gridverse.envs import transition_functions as trf
+
+    s0 = state_from_str(case['state'])
+    s = fast_copy(s0)
+    a = ACTIONS[case['action']]
+    rng = ScriptRng(case['answers'])
+    err = None
+    try:
+        for i in case['atoms']:
+            trf.transition_function_registry[TRANS_NAMES[i]](s, a, rng=rng)
+    except Exception as e:  # noqa
+        err = e
+    return s0, a, s, err, rng
+
+
+def in_grid(g, p):
+    return 0 <= p.y < g.shape.height and 0 <= p.x < g.shape.width
+
+
+def is_valid(s):
+    return in_grid(s.grid, s.agent.position) and not s.grid[s.agent.position].blocks_movement
+
+
+class C08(Oracle):
+    prop = 'C08'
+
+    def gen(self, rng):
+        singles = [[i] for i in range(7)]
+        g1 = gen_step_cases(rng, atoms_choices=singles)
+        g2 = gen_step_cases(rng, valid=True)
+        while True:
+            yield next(g1)
+            c = next(g2)
+            c['history'] = [rng.randrange(8) for _ in range(rng.randint(1, 12))]
+            yield c
+
+    def from_line(self, line):
+        return step_case_from_line(line)
+
+    def check(self, c):
+        out = []
+        s0, a, s1, err, _ = run_step(c)
+        atoms = c['atoms']
+        if len(atoms) == 1 and in_grid(s0.grid, s0.agent.position):
+            name = TRANS_NAMES[atoms[0]]
+            if err is not None:
+                if not (name == 'teleport'):
+                    out.append(V(f'{name}/raises', f'{type(err).__name__} on {c["state"]} a={a}'))
+                return out
+            p0, o0 = s0.agent.position, s0.agent.orientation
+            p1, o1 = s1.agent.position, s1.agent.orientation
+            if name == 'move_agent':
+                if o1 != o0:
+                    out.append(V('move_agent/changes-heading', c['state']))
+                if a.is_move():
+                    from gym_gridverse.envs.utils import _move_action_to_orientation as mv
+
+                    tgt = p0 + (o0 * mv[a]) * Position(-1, 0)
+                    free = in_grid(s0.grid, tgt) and not s0.grid[tgt].blocks_movement
+                    if free and p1 != tgt:
+                        out.append(V('move_agent/free-target-not-reached', f'{c["state"]} a={a}'))
+                    if not free and p1 != p0:
+                        sig = 'move_agent/target-outside-grid-wraps' if not in_grid(s0.grid, tgt) else 'move_agent/moves-into-blocking-cell'
+                        out.append(V(sig, f'{c["state"]} a={a} -> {p1}'))
+                elif p1 != p0:
+                    out.append(V('move_agent/non-move-action-displaces', f'{c["state"]} a={a}'))
+            elif name == 'turn_agent':
+                if p1 != p0:
+                    out.append(V('turn_agent/displaces', c['state']))
+                exp = {'TURN_LEFT': o0 * O.L, 'TURN_RIGHT': o0 * O.R}.get(a.name, o0)
+                if o1 != exp:
+                    out.append(V('turn_agent/wrong-heading', f'{c["state"]} a={a}'))
+                if a.is_turn() and o1 == o0:
+                    out.append(V('turn_agent/no-quarter-turn', f'{c["state"]} a={a}'))
+            elif name == 'teleport':
+                if o1 != o0:
+                    out.append(V('teleport/changes-heading', c['state']))
+            else:
+                if p1 != p0 or o1 != o0:
+                    out.append(V(f'{name}/changes-pose', f'{c["state"]} a={a}'))
+        # turn laws
+        if atoms == [1]:
+            from gym_gridverse.envs import transition_functions as trf
+            from gym_gridverse.action import Action
+
+            s = fast_copy(s0)
+            trf.turn_agent(s, Action.TURN_LEFT)
+            trf.turn_agent(s, Action.TURN_RIGHT)
+            if s.agent.orientation != s0.agent.orientation:
+                out.append(V('turn_agent/left-right-not-identity', c['state']))
+            for t in (Action.TURN_LEFT, Action.TURN_RIGHT):
+                s = fast_copy(s0)
+                for _ in range(4):
+                    trf.turn_agent(s, t)
+                if s.agent.orientation != s0.agent.orientation:
+                    out.append(V('turn_agent/four-turns-not-identity', c['state']))
+        # history invariant
+        if 'history' in c and is_valid(s0):
+            from harness.recrng import ScriptRng
+            from gym_gridverse.envs import transition_functions as trf
+
+            s = fast_copy(s0)
+            rng = ScriptRng(c['answers'] * 20)
+            for k, ai in enumerate(c['history']):
+                try:
+                    for i in atoms:
+                        trf.transition_function_registry[TRANS_NAMES[i]](s, ACTIONS[ai], rng=rng)
+                except Exception as e:
+                    out.append(V('history/raises', f'{type(e).__name__} after {k} steps from {c["state"]}'))
+                    break
+                if not is_valid(s):
+                    out.append(V('history/agent-invalid', f'after {k+1} steps of {atoms} from {c["state"]}: {s.agent.position}'))
+                    break
+        return out
+
+    def nontrivial(self, c):
+        return True
+
+
+ORACLES = {'C18': C18, 'C08': C08}
